@@ -192,6 +192,12 @@ def _region(layout, size):
     return "other"
 
 
+_REGION_CLASS = {"hdr": "torn-block", "key": "torn-block", "val": "torn-block", "boundary": "block-boundary",
+                 "before": "block-boundary", "other": "unexpected-layout"}
+_REC_CLASS = {"r": "reopen-r", "a": "reopen-a", "stale_r": "stale-handle", "stale_a": "stale-handle", "coll_r": "collection",
+              "coll_w": "collection", "stale_coll_w": "stale-handle", "a_crash2": "reopen-a"}
+
+
 class _Expect:
     def __init__(self, plan):
         self.committed = {key_bytes(x["k"]): value_bytes(x["v"]) for x in plan["committed"]}
@@ -386,7 +392,7 @@ def _second_crash(res, kern, image, plan, exp, visible, sig_base, ctx):
         res.stats["probe:second_crash"] += 1
         for kind in ("r", "a"):
             res.evals += 1
-            _recover(res, kind, bytes(img2), plan, exp2, {}, sig_base.replace("rec=a_crash2", f"rec=crash2+{kind}"),
+            _recover(res, kind, bytes(img2), plan, exp2, {}, sig_base.split("|rec=")[0] + "|rec=second-crash",
                      ctx + f" second-crash-cut={cut}/{total}", depth=1)
             # what was visible after the first recovery must still be there (committed part is in `must`)
 
@@ -523,7 +529,7 @@ def _run_enum(plan, trace=False):
             nontrivial = 0 < stream_off < total
             for kind in recs:
                 res.evals += 1
-                sig_base = f"C03|crash@{region}|rec={kind}|layer={plan['layer']}"
+                sig_base = f"C03|crash@{_REGION_CLASS[region]}|rec={_REC_CLASS[kind]}"
                 ctx = f"crash point op#{j}+{b}B (stream offset {stream_off}/{total}, image {len(img)}B, committed image {len(image0)}B)"
                 nv = len(res.violations)
                 _recover(res, kind, imgb, plan, exp, stale_blobs, sig_base, ctx)
